@@ -603,7 +603,8 @@ Definition stmt_q (kin : kctx) (x : query) : option string :=
   end.
 (* str(statement) as tagged tokens, and the references of its own clauses *)
 Definition top_kctx (x : query) : kctx := top_ctx (top_cls x).
-Definition str_stoks (x : query) : res (list stok) := stoks (top_kctx x) false false (qalias x) x.
+Definition str_stoks (x : query) : res (list stok) :=
+  match x with QSet _ _ _ _ _ _ => Ok [] | _ => stoks (top_kctx x) false false (qalias x) x end.
 Definition stmt_refs (x : query) : list (clause * option string * string) :=
   match str_stoks x with Ok ts => srefs_of ts | Err _ => [] end.
 
@@ -613,35 +614,38 @@ Definition stmt_refs (x : query) : list (clause * option string * string) :=
 (* the sub-query's own counter as from_() reads it *)
 Definition inner_count (x : query) : nat := match x with QSet _ _ _ _ _ _ => 0 | _ => sub_count x end.
 
-(* a history of from_() / join() calls in any order, as far as naming is concerned *)
+(* a history of from_() / join() calls in ANY order, as far as naming is concerned *)
 Inductive ev :=
 | EFromQ (given : option string) (inner : nat)   (* from_(sub-query): its alias before the call, its own counter *)
 | EJoinQ (given : option string)                 (* join(QueryBuilder) *)
 | EOther (name : option string).                 (* tables, AliasedQuery, join(_SetOperation): no counter effect *)
-(* name of every source, whether the builder invented it, and the counter afterwards *)
-Fixpoint run_hist (own : nat) (h : list ev) : list (option string * bool) * nat :=
+Inductive nkind := NInvented | NGivenSub | NOther.
+(* effective alias of every source, how it came about, and the counter afterwards *)
+Fixpoint run_hist (own : nat) (h : list ev) : list (option string * nkind) * nat :=
   match h with
   | [] => ([], own)
-  | EFromQ (Some a) _ :: r => let (r', n) := run_hist own r in ((Some a, false) :: r', n)
+  | EFromQ (Some a) _ :: r => let (r', n) := run_hist own r in ((Some a, NGivenSub) :: r', n)
   | EFromQ None inner :: r =>
       let d := Nat.max own inner in
-      let (r', n) := run_hist (S d) r in ((Some ("sq" ++ nat_to_string d)%string, true) :: r', n)
-  | EJoinQ (Some a) :: r => let (r', n) := run_hist own r in ((Some a, false) :: r', n)
-  | EJoinQ None :: r => let (r', n) := run_hist (S own) r in ((Some ("sq" ++ nat_to_string own)%string, true) :: r', n)
-  | EOther o :: r => let (r', n) := run_hist own r in ((o, false) :: r', n)
+      let (r', n) := run_hist (S d) r in ((Some ("sq" ++ nat_to_string d)%string, NInvented) :: r', n)
+  | EJoinQ (Some a) :: r => let (r', n) := run_hist own r in ((Some a, NGivenSub) :: r', n)
+  | EJoinQ None :: r => let (r', n) := run_hist (S own) r in ((Some ("sq" ++ nat_to_string own)%string, NInvented) :: r', n)
+  | EOther o :: r => let (r', n) := run_hist own r in ((o, NOther) :: r', n)
   end.
-Definition invented_of (l : list (option string * bool)) : list string :=
-  flat_map (fun p => match p with (Some s, true) => [s] | _ => [] end) l.
-Definition given_of (l : list (option string * bool)) : list string :=
-  flat_map (fun p => match p with (Some s, false) => [s] | _ => [] end) l.
-Definition all_of (l : list (option string * bool)) : list string :=
-  flat_map (fun p => match p with (Some s, _) => [s] | _ => [] end) l.
+Definition names_of (keep : nkind -> bool) (l : list (option string * nkind)) : list string :=
+  flat_map (fun p => match p with (Some s, kd) => if keep kd then [s] else [] | _ => [] end) l.
+Definition is_invented (kd : nkind) : bool := match kd with NInvented => true | _ => false end.
+Definition is_given_sub (kd : nkind) : bool := match kd with NGivenSub => true | _ => false end.
+Definition is_sub (kd : nkind) : bool := match kd with NOther => false | _ => true end.
+Definition invented_of := names_of is_invented.     (* names the builder made up *)
+Definition given_sub_of := names_of is_given_sub.   (* aliases sub-queries carried when they were passed in *)
+Definition sub_of := names_of is_sub.               (* the names of all sub-query sources *)
 
 Definition from_ev (s : source) : ev :=
   match s with
   | SrcQ x => EFromQ (qalias x) (inner_count x)
-  | SrcT t => EOther (talias t)
-  | SrcA n => EOther (Some n) end.
+  | SrcT t => EOther None
+  | SrcA n => EOther None end.
 Definition join_ev (base : list tref) (j : jhow * source * jcond) : ev :=
   match snd (fst j) with
   | SrcQ x => match qalias x, x with
@@ -651,7 +655,7 @@ Definition join_ev (base : list tref) (j : jhow * source * jcond) : ev :=
   | SrcT t => EOther (match talias t with
                       | None => if existsb (tref_eqb t) base then Some (tname t ++ "2")%string else None
                       | Some a => Some a end)
-  | SrcA n => EOther (Some n) end.
+  | SrcA n => EOther None end.
 (* Query.v's order: every from_() first, then the joins *)
 Definition stmt_hist (base : list tref) (from : list source) (joins : list (jhow * source * jcond)) : list ev :=
   map from_ev from ++ map (join_ev base) joins.
@@ -659,7 +663,6 @@ Definition stmt_hist (base : list tref) (from : list source) (joins : list (jhow
 Definition sq_prefixed (s : string) : bool :=
   match s with String "s" (String "q" _) => true | _ => false end.
 
-(* names the builder invents in one statement of Query.v, FROM items first *)
 Definition q_hist (x : query) : list ev :=
   match x with
   | QSel _ _ _ _ from joins _ _ _ _ _ _ _ _ => stmt_hist (base_tables from) from joins
@@ -667,12 +670,33 @@ Definition q_hist (x : query) : list ev :=
   | QDel _ from _ => stmt_hist [] from []
   | _ => []
   end.
-Definition invented_names (x : query) : list string := invented_of (fst (run_hist 0 (q_hist x))).
-Definition subquery_names (x : query) : list string :=
-  flat_map (fun p => match p with (EFromQ _ _, (Some s, _)) | (EJoinQ _, (Some s, _)) => [s] | _ => [] end)
-           (combine (q_hist x) (fst (run_hist 0 (q_hist x)))).
-(* the in-statement names of ALL sources (alias if any, else table name) *)
+Definition q_named (x : query) : list (option string * nkind) := fst (run_hist 0 (q_hist x)).
+Definition invented_names (x : query) : list string := invented_of (q_named x).
+Definition given_sub_names (x : query) : list string := given_sub_of (q_named x).
+Definition subquery_names (x : query) : list string := sub_of (q_named x).
+(* the in-statement names of ALL sources (alias if any, else table name), and the aliases as the objects carry them *)
 Definition source_names (x : query) : list string := map table_name (q_srcs x).
+Definition source_aliases (x : query) : list (option string) := map talias (q_srcs x).
+
+(* ---- correlated references: tables of the statement's own clause terms that are not among its sources ---- *)
+Definition opt_list {A} (o : option A) : list A := match o with Some a => [a] | None => [] end.
+Definition on_items (joins : list (jhow * source * jcond)) : list item :=
+  flat_map (fun j => match snd j with JOn i => [i] | _ => [] end) joins.
+Definition own_items (x : query) : list item :=
+  match x with
+  | QSel _ _ _ sels _ joins wh hv gb ob _ _ _ _ => sels ++ on_items joins ++ opt_list wh ++ gb ++ opt_list hv ++ map fst ob
+  | QUpd _ _ sets _ joins wh _ => on_items joins ++ map snd sets ++ opt_list wh
+  | QDel _ _ wh => opt_list wh
+  | _ => []
+  end.
+Definition q_scope (x : query) : list tref :=
+  match x with QUpd _ tbl _ _ _ _ _ => tbl :: q_srcs x | _ => q_srcs x end.
+Definition outer_refs (x : query) : list (option tref) :=
+  filter (out_of_scope (q_scope x) (q_srcs x)) (flat_map item_tables (own_items x)).
+(* row sources in scope: the statement's own plus one per reference to a table of an enclosing statement *)
+Definition eff_scope (x : query) : nat := scope_size x + List.length (outer_refs x).
+Definition is_sud (x : query) : bool :=
+  match x with QSel _ _ _ _ _ _ _ _ _ _ _ _ _ _ | QUpd _ _ _ _ _ _ _ | QDel _ _ _ => true | _ => false end.
 
 (* ------------------------------------------------------------------------------------------- *)
 (* 5. schema objects                                                                            *)
